@@ -1122,9 +1122,9 @@ def _gen_program(rng, tier):
             site, after = pb.lab(), pb.lab()
             if R() < 0.3:
                 pb.add(['X%=0'])
-                pb.add(['Y%=7\\X%:PRINT "%s"' % pb.uid('div')], lab=site, role='site')
+                pb.add(['Y%%=7\\X%%:PRINT "%s"' % pb.uid('div')], lab=site, role='site')
             else:
-                pb.add(['ERROR %d:PRINT "%s"' % (rng.choice([5, 9, 11, 53, 77, 200, 255]), pb.uid('post'))], lab=site, role='site')
+                pb.add(['ERROR %d:PRINT "%s"' % (rng.choice([5, 9, 13, 53, 77, 200, 255]), pb.uid('post'))], lab=site, role='site')
             pb.add(['PRINT "%s"' % pb.uid('after')], lab=after)
             sites.append((site, after))
         elif r < 0.92:
@@ -1210,7 +1210,11 @@ def _gen_program(rng, tier):
         parts = []
         for p in ln['parts']:
             if isinstance(p, tuple):
-                parts.append([labels[p[1]] if p[0] == '@' else missnum(p[1])])
+                v = labels[p[1]] if p[0] == '@' else missnum(p[1])
+                if v == 0 and parts and isinstance(parts[-1], str) and parts[-1].endswith('ERROR GOTO '):
+                    # ON ERROR GOTO 0 is not a reference to line 0
+                    v = 64000 + i
+                parts.append([v])
             else:
                 parts.append(p)
         lines.append({'op': 'line', 'n': nums[i], 'parts': parts, 'role': ln['role']})
@@ -1258,7 +1262,7 @@ def gen14(rng, tier):
         for _ in range(rng.randint(1, 3)):
             r = rng.random()
             if r < 0.35:
-                out.append({'op': 'err', 'code': rng.choice([5, 11, 53, 77, 250])})
+                out.append({'op': 'err', 'code': rng.choice([5, 13, 53, 77, 250])})
             elif r < 0.70 and info['waits']:
                 out.append({'op': 'goto', 'n': rng.choice(info['waits']), 'ev': _gen_events(rng, info, 40) or
                             [{'at': rng.randint(1, 20), 'ev': rng.choice(info['evs'] or ['key']), 'key': info['keyno']}]})
@@ -1314,6 +1318,7 @@ def _arm14(run, w, case, root, do_renum, decisions):
     orig = {}             # original number -> current number
     recs = {}
     renumbered = False
+    void = [False]
     with w:
         d = Driver(w, devices={'C:': os.path.join(root, 'c')}, current_device='C:', syntax=cfg.get('syntax', 'advanced'))
         E = Eng(run, w, d, root)
@@ -1345,10 +1350,13 @@ def _arm14(run, w, case, root, do_renum, decisions):
                     cmd = b'ERROR %d' % int(op['code'])
                 else:
                     cmd = b'F%%=0:W%%=0:GOTO %d' % orig[int(op['n'])]
-                r = E.x(cmd, poll_cap=30000)
+                r = E.x(cmd, poll_cap=4000)
                 cancel_scheduled(w)
-                recs[i] = {'out': r.out, 'inv': {c: o for o, c in orig.items()}}
+                recs[i] = {'out': r.out, 'inv': {c: o for o, c in orig.items()}, 'void': void[0]}
             elif k == 'renum':
+                if any((op.get(f) or 0) > MAXLINE for f in ('new', 'old', 'step')):
+                    # not a line number: a syntax matter, outside this check
+                    continue
                 plan = M.renum_plan(op.get('new'), op.get('old'), op.get('step'))
                 trapcls = 'none'
                 if do_renum:
@@ -1365,13 +1373,41 @@ def _arm14(run, w, case, root, do_renum, decisions):
                                         u(text), '\n'.join('%d %s' % x for x in before[:60]), e.exc_type, e.exc_msg, e.tb[-1200:]))
                         decisions[i] = 'crash'
                         return recs, decisions
-                    accepted = r.err is None
-                    decisions[i] = accepted
+                    # an error raised by RENUM may be caught by the program's own armed ON ERROR handler, so
+                    # the listing decides whether the statement took effect
                     msgs = re.findall(br'Undefined line (\d+) in (\d+)', r.out)
+                    mp = plan['mapping']
+                    after = Model()
+                    after.lines = M.copy_lines()
+                    after.apply_renum(mp)
+                    got = E.list_file()
+                    run.probe('renum_list_checks')
+                    progtext = '\n'.join('%d %s' % x for x in before[:60])
+                    # anything printed besides the Undefined-line notes is an error message or the output of
+                    # the program's error handler (every generated handler prints first)
+                    errored = bool(re.sub(br'Undefined line \d+ in \d+\r\n', b'', r.out))
+                    if got == after.listing() and (got != before or not errored):
+                        accepted = True
+                    elif got == before:
+                        accepted = False
+                    else:
+                        accepted = None
+                    decisions[i] = accepted
+                    recs[i] = {'out': r.out, 'inv': {c: o for o, c in orig.items()}, 'void': void[0]}
+                    if accepted is None:
+                        exp = after.listing()
+                        if got is not None and [x[0] for x in got] != [x[0] for x in exp]:
+                            sig = 'renum-list:line-numbers'
+                        else:
+                            sig = 'renum-list:references'
+                        bad = [(g, e) for g, e in zip(got or [], exp) if g != e][:5]
+                        run.violate('C14', sig, '%s (errors %r) on\n%s\nfirst differing lines (engine, model): %r\n%s' % (
+                            u(text), r.errs, progtext, bad, _diff(got, exp)))
+                        decisions[i] = 'crash'
+                        return recs, decisions
                     if accepted:
                         if plan['ok'] is False:
-                            run.violate('C14', 'renum-accepted-invalid', '%s accepted; lines %r' % (u(text), sorted(M.lines)[:60]))
-                        mp = plan['mapping']
+                            run.violate('C14', 'renum-accepted-invalid', '%s accepted on\n%s' % (u(text), progtext))
                         # messages about missing targets
                         want = {}
                         for ref, ln in plan['missing']:
@@ -1387,46 +1423,38 @@ def _arm14(run, w, case, root, do_renum, decisions):
                                     u(text), r.out[:300], {k_: sorted(v) for k_, v in want.items()}))
                             seen.add(ref)
                         if set(want) - seen:
-                            run.violate('C14', 'renum-msg:missing-target-not-reported', '%s printed %r; missing targets are %r' % (
-                                u(text), r.out[:300], sorted(want)))
+                            run.violate('C14', 'renum-msg:missing-target-not-reported', '%s printed %r; missing targets are %r on\n%s' % (
+                                u(text), r.out[:300], sorted(want), progtext))
                         if want:
                             run.probe('missing_targets_reported')
                         M.apply_renum(mp)
                         orig = {o: mp.get(c, c) for o, c in orig.items()}
                         renumbered = True
+                        if any(ref in M.lines for ref, _ in plan['missing']):
+                            # a dangling reference now names a real line: the renumbered program is
+                            # entitled to behave differently from here on
+                            void[0] = True
+                            run.probe('dangling_ref_captured')
                     else:
                         if plan['ok'] is True:
-                            run.violate('C14', 'renum-rejected-valid', '%s gave %r; lines %r' % (u(text), r.errs, sorted(M.lines)[:60]))
-                        if msgs:
-                            run.violate('C14', 'renum-msg:printed-by-rejected-renum', '%s gave %r' % (u(text), r.out[:300]))
-                    got = E.list_file()
-                    exp = M.listing()
-                    run.probe('renum_list_checks')
-                    if got != exp:
-                        if got is not None and [x[0] for x in got] != [x[0] for x in exp]:
-                            sig = 'renum-list:line-numbers' if accepted else 'renum-rejected-program-changed'
-                        else:
-                            sig = 'renum-list:references' if accepted else 'renum-rejected-program-changed'
-                        bad = [(g, e) for g, e in zip(got or [], exp) if g != e][:5]
-                        run.violate('C14', sig, '%s on\n%s\nfirst differing lines (engine, model): %r\n%s' % (
-                            u(text), '\n'.join('%d %s' % x for x in before[:60]), bad, _diff(got, exp)))
+                            run.violate('C14', 'renum-rejected-valid', '%s gave %r on\n%s' % (u(text), r.out[:200], progtext))
+                        run.probe('renum_rejected')
+                        if not r.errs:
+                            run.probe('renum_error_trapped_by_program')
                     nums, problem = E.peek_chain(len(M.lines) + 3)
                     if problem or nums != sorted(M.lines):
                         run.violate('C14', 'renum-chain:%s' % (problem or 'numbers-differ'), 'links give %r, model %r' % (nums[:60], sorted(M.lines)[:60]))
-                    if accepted:
-                        old = 0 if op.get('old') is None else op['old']
-                        cls = set()
-                        for tline in case.get('traps', []):
-                            pass
                     run.state('C14', 'renum', accepted, plan['ok'], op.get('new') is None, op.get('old') is None,
                               op.get('step') is None, len(M.lines) > 10, bool(plan['missing']))
                 else:
                     dec = decisions.get(i)
                     if dec is True:
-                        E.x(b'MERGE "C:EMPTY.BAS"')
+                        r = E.x(b'MERGE "C:EMPTY.BAS"')
                         renumbered = True
                     else:
-                        E.x(b'REM')
+                        # a rejected RENUM is an Illegal function call in direct mode
+                        r = E.x(b'ERROR 5', poll_cap=4000)
+                        recs[i] = {'out': r.out, 'inv': {}}
                     E.list_file()
             prev = k
         d.close()
@@ -1449,8 +1477,9 @@ def run14(case):
         for i, op in enumerate(ops):
             if op['op'] == 'renum':
                 any_renum = any_renum or dec.get(i) is True
-                continue
-            if i not in ra or i not in rb:
+                if dec.get(i) is not False:
+                    continue
+            if i not in ra or i not in rb or ra[i].get('void'):
                 continue
             inv = ra[i]['inv']
             a = _IN_RE.sub(lambda m: b' in %d' % inv.get(int(m.group(1)), int(m.group(1))), ra[i]['out'])
@@ -1465,7 +1494,9 @@ def run14(case):
                 if kind == 'goto' and b'EV' in bo:
                     run.probe('event_trap_followed')
             if a != bo:
-                if kind == 'err':
+                if kind == 'renum':
+                    sig = 'behaviour:rejected-renum-differs-from-illegal-function-call'
+                elif kind == 'err':
                     sig = 'trap-follow:error-trap:direct-mode-ERROR-after-renum'
                 elif kind == 'goto':
                     sig = 'trap-follow:event-trap:%s' % ('+'.join(evk) or 'none')
